@@ -88,7 +88,11 @@ Swap(cc) == [cc EXCEPT !.s1 = cc.s2, !.s2 = cc.s1,
 LY == INSTANCE Layout
 LayoutBandAgrees ==
     stage >= 1 => \A i \in 0..(L1(c) - 1), j \in 0..(L2(c) - 1) :
-                     InBand(c, i, j) <=> LY!InBandL(i, j, L1(c), L2(c), Win(c))
+                     /\ InBand(c, i, j) <=> LY!InBandL(i, j, L1(c), L2(c), Win(c))
+                     /\ StartOK(c, i, j) <=> LY!StartOKL(i, j, c.psi[1], c.psi[3])
+                     /\ EndOK(c, i, j) <=> LY!EndOKL(i, j, L1(c), L2(c), c.psi[2], c.psi[4])
+                     /\ \A i2 \in 0..(L1(c) - 1), j2 \in 0..(L2(c) - 1) :
+                           IsStep(<<i, j>>, <<i2, j2>>) <=> LY!IsStepL(i, j, i2, j2)
 
 Laws ==
     stage = 2 =>
